@@ -195,6 +195,24 @@ def run(ctx: Context):
             dep = deps_through(inner, bu, t.elts[3])
             r.require(any(d.endswith("max_segment_size") for d in dep), inner, inner.loc(t),
                       "element 3 of the encoding-parameter tuple (%s) is not derived from the segment size" % src(inner, t.elts[3]))
+        # (c') an explicitly set k / n / max segment size wins over the default, the default is used otherwise.
+        # Decided by evaluating the defining expression (or / and / conditional expressions over attribute
+        # leaves) with the setting truthy and with the setting None; other shapes are left to (c).
+        odefs = def_exprs(bu)
+        for setting in ("encoding_param_k", "encoding_param_n", "max_segment_size"):
+            opath = "self." + setting
+            for var, exprs in sorted(odefs.items()):
+                if len(exprs) != 1 or opath not in {attr_path(x) for x in ast.walk(exprs[0]) if isinstance(x, ast.Attribute)}:
+                    continue
+                when_set = _choose(exprs[0], opath, True, odefs)
+                when_unset = _choose(exprs[0], opath, False, odefs)
+                if when_set is None or when_unset is None:
+                    continue
+                r.require(when_set[0] == opath, bu, bu.loc(exprs[0]), "%s = %s: an explicitly set %s is ignored (the value "
+                          "is %s), so changing that setting does not change the key / storage index" % (
+                              var, src(bu, exprs[0]), setting, when_set[0]))
+                r.require(when_unset[0] not in (opath, "None"), bu, bu.loc(exprs[0]), "%s = %s: with %s unset the value is "
+                          "%s, not the default" % (var, src(bu, exprs[0]), setting, when_unset[0]))
         # (d) the read loop
         hv = None
         if isinstance(hnode.ast, ast.Assign) and len(hnode.ast.targets) == 1 and isinstance(hnode.ast.targets[0], ast.Name):
@@ -221,12 +239,20 @@ def run(ctx: Context):
                        and c.func.value.id == hv and len(c.args) == 1 and isinstance(c.args[0], ast.Name)
                        and c.args[0].id == var for c in node_calls(n))
 
-        def rewinds(n):
+        def is_rewind(c):
+            return bool(c.args) and isinstance(c.args[0], ast.Constant) and c.args[0].value == 0 and not c.keywords and (
+                len(c.args) == 1 or (isinstance(c.args[1], ast.Constant) and c.args[1].value == 0))
+
+        def seeks(n):
+            """'rewind' / 'moved' for the last seek on the file handle in statement n, else None."""
+            out = None
             for c in calls_at(n, "seek"):
-                if on_handle(n, c) and c.args and isinstance(c.args[0], ast.Constant) and c.args[0].value == 0 and (
-                        len(c.args) == 1 or (isinstance(c.args[1], ast.Constant) and c.args[1].value == 0)):
-                    return True
-            return False
+                if on_handle(n, c):
+                    out = "rewind" if is_rewind(c) else "moved"
+            return out
+
+        def rewinds(n):
+            return seeks(n) == "rewind"
         reads = [n for n in gcfg.nodes if read_var(n)]
         digs = [n for n in gcfg.nodes if is_digest(n)]
         if not reads:
@@ -241,7 +267,7 @@ def run(ctx: Context):
         def tr(n, lab, nxt, st):
             if lab == "exc" or infeasible(n, lab):
                 return None
-            pend, eof, rew = st
+            pend, eof, rew, moved = st
             if n.kind == "stmt":
                 rv = read_var(n)
                 if rv:
@@ -250,16 +276,23 @@ def run(ctx: Context):
                     pend = None
                 elif pend and pend in node_stores(n):
                     pend = "<overwritten %s>" % pend
-                if rewinds(n):
-                    rew = True
+                sk = seeks(n)
+                if sk == "rewind":
+                    rew, moved = True, False
+                elif sk == "moved":
+                    rew, moved = False, True
             elif n.kind == "test" and pend and empty_read_edge(n, lab, pend):
                 pend, eof = None, True
-            return (pend, eof, rew)
-        visited, parent = explore(gcfg, (None, False, True), tr)
+            return (pend, eof, rew, moved)
+        visited, parent = explore(gcfg, (None, False, True, False), tr)
         r.count(len(visited))
         for (nid, st) in sorted(visited, key=lambda x: (x[0], str(x[1]))):
             n = gcfg.nodes[nid]
-            pend, eof, rew = st
+            pend, eof, rew, moved = st
+            if moved and read_var(n):
+                problems.setdefault(("moved", nid), (n, "the file is read for the key after a seek to a position other "
+                                                     "than its start: part of the plaintext is not hashed into the key",
+                                                     witness(gcfg, parent, (nid, st))))
             if pend and (read_var(n) or is_digest(n)):
                 problems.setdefault(("dropped", nid), (n, "a chunk read from the file (%s) can reach %s without "
                                                        "%s.update(..)" % (pend, "the next read" if read_var(n) else "the digest", hv),
@@ -617,6 +650,43 @@ def run(ctx: Context):
         for (n, w) in find_path_avoiding(gf.cfg(), finals, gate_edge=nothing_left):
             r.violation(gf, gf.loc(n.ast), "read_this_many_bytes can deliver before %s bytes were read "
                         "(path: %s)" % (spar, w.brief()), w)
+        # the outer function: every result is the Deferred of uploadable.read(size) with that callback, except
+        # when nothing was asked for (size == 0), where an empty / the accumulated list is delivered
+        greg = [y for y in regs if isinstance(y.target, ast.Name) and y.target.id == gf.name][0]
+        rcfg = rt.cfg()
+        rfn = FlowNorm(rt)
+        r.require(greg.kind == "cb" and [y for y in regs if y.recv == greg.recv][0] is greg, rt, rt.loc(greg.call),
+                  "%s is not the first callback of the read" % gf.name)
+        dsrc = [a.value for a in func_own_nodes(rt) if isinstance(a, ast.Assign) and attr_path(a.targets[0]) == greg.recv]
+        ok = bool(dsrc) and all(isinstance(v, ast.Call) and call_name(v) == "%s.read" % upar and len(v.args) == 1
+                                and not v.keywords and isinstance(v.args[0], ast.Name) and v.args[0].id == spar for v in dsrc)
+        r.require(ok, rt, rt.loc(), "the data handed to %s is not %s.read(%s)" % (gf.name, upar, spar))
+        for kn in rcfg.find(stores(spar)):
+            r.violation(rt, rt.loc(kn.ast), "read_this_many_bytes re-binds %s" % spar)
+
+        def none_wanted(n, lab):
+            f = rfn.edge_fact(n, lab)
+            if not f:
+                return False
+            op, l, rr = f
+            return (op == "false" and l == spar) or (op == "==" and {l, rr} == {spar, "0"}) or \
+                (op == "<=" and (l, rr) == (spar, "0")) or (op == "<" and (l, rr) == (spar, "1"))
+
+        def early(n):
+            return is_return(n) and not (n.ast.value is not None and attr_path(n.ast.value) == greg.recv)
+        for (n, w) in find_path_avoiding(rcfg, early, gate_edge=none_wanted):
+            r.violation(rt, rt.loc(n.ast), "read_this_many_bytes returns %s without reading although %s may be non-zero: "
+                        "the literal cap would not embed the data (path: %s)" % (src(rt, n.ast.value), spar, w.brief()), w)
+        for n in rcfg.find(early):
+            v = rfn.resolve(n, n.ast.value) if n.ast.value is not None else None
+            a = v.args[0] if isinstance(v, ast.Call) and call_tail(v) == "succeed" and len(v.args) == 1 else None
+            a = rfn.resolve(n, a) if a is not None else None
+            ok = a is not None and ((isinstance(a, ast.List) and not a.elts) or (isinstance(a, ast.Name) and a.id == ppar)
+                                    or (isinstance(a, ast.Call) and call_name(a) == "list" and not a.args))
+            r.require(ok, rt, rt.loc(n.ast), "for %s == 0 read_this_many_bytes returns %s, expected a Deferred of the "
+                      "empty / accumulated list (succeed([]))" % (spar, src(rt, n.ast.value)))
+        for w in reaches_exit_avoiding(rcfg, is_return):
+            r.violation(rt, rt.loc(), "read_this_many_bytes can return None instead of the Deferred", w)
         # no server contact from the literal uploader
         lu = idx.cls(UP + "LiteralUploader")
         reach = cg.reachable(list(lu.methods.values()) + [rt, gf])
@@ -789,6 +859,57 @@ def run(ctx: Context):
         ok = bool(fed) and any(isinstance(v, ast.Call) and any(attr_path(x) == "self.original.read" for x in ast.walk(v))
                                for v in dsrc) and [x for x in regs if x.recv == fed[0].recv][0] is fed[0]
         r.require(ok, re_, re_.loc(), "%s is not the first callback of self.original.read(..)" % g.name)
+
+
+def _choose(e, opath, is_set, defs, depth=0):
+    """Which leaf does expression `e` evaluate to when the attribute `opath` is truthy (is_set) / None (not
+    is_set) and every other attribute is truthy?  -> (leaf path, truthiness) or None when `e` is not built
+    from or / and / not / conditional expressions / `is None` tests over attributes, None and single-definition locals."""
+    if depth > 6:
+        return None
+    if isinstance(e, ast.Attribute):
+        p = attr_path(e)
+        if p is None:
+            return None
+        return (p, is_set) if p == opath else (p, True)
+    if isinstance(e, ast.Constant) and e.value is None:
+        return ("None", False)
+    if isinstance(e, ast.Name):
+        ds = defs.get(e.id, [])
+        return _choose(ds[0], opath, is_set, defs, depth + 1) if len(ds) == 1 else None
+    if isinstance(e, ast.BoolOp):
+        last = None
+        for v in e.values:
+            last = _choose(v, opath, is_set, defs, depth + 1)
+            if last is None:
+                return None
+            if last[1] == isinstance(e.op, ast.Or):
+                return last
+        return last
+    if isinstance(e, ast.IfExp):
+        t = _truth(e.test, opath, is_set, defs, depth + 1)
+        if t is None:
+            return None
+        return _choose(e.body if t else e.orelse, opath, is_set, defs, depth + 1)
+    return None
+
+
+def _truth(t, opath, is_set, defs, depth):
+    if isinstance(t, ast.UnaryOp) and isinstance(t.op, ast.Not):
+        v = _truth(t.operand, opath, is_set, defs, depth + 1)
+        return None if v is None else not v
+    if isinstance(t, ast.Compare) and len(t.ops) == 1 and isinstance(t.ops[0], (ast.Is, ast.IsNot)):
+        l = _choose(t.left, opath, is_set, defs, depth + 1)
+        rr = _choose(t.comparators[0], opath, is_set, defs, depth + 1)
+        if l is None or rr is None or (l[0] == "None") == (rr[0] == "None"):
+            return None
+        other = rr if l[0] == "None" else l
+        is_none = not other[1] and other[0] == opath         # only the unset setting is known to be None
+        if other[1] is False and other[0] != opath:
+            return None
+        return is_none == isinstance(t.ops[0], ast.Is)
+    v = _choose(t, opath, is_set, defs, depth + 1)
+    return None if v is None else v[1]
 
 
 def _descendants(fn):
